@@ -504,10 +504,17 @@ var (
 
 // lateKinds is the order in which late lints are registered, one at a time; after each registration the
 // registry is listed and filtered again (every kind once right after a use of the registry, in two orders).
-var lateKinds = []string{"ocsp", "crl", "cert", "ocsp", "cert", "crl", "cert", "crl", "ocsp"}
+var lateKinds = []string{"ocsp", "crl", "cert", "ocsp", "cert", "crl", "cert", "crl", "ocsp", "crl", "ocsp"}
 
 // late names sort alternately before and after every built-in name ("e_a..." < "e_b..." ... < "w_..." < "w_zz...")
 func lateName(i int) string {
+	// the last two are named like a built-in certificate lint but for the severity prefix, and are of another kind
+	switch i {
+	case 9:
+		return "w_ca_country_name_missing"
+	case 10:
+		return "n_ca_country_name_missing"
+	}
 	if i%2 == 0 {
 		return fmt.Sprintf("e_a_verif_late_%d_%s", i, lateKinds[i])
 	}
